@@ -74,7 +74,7 @@ TIE_THEOREMS = {".IsReservedWord": "IsReservedWord_eq", "File.isLocal": "isLocal
                 "Statement.render": "Statement_render_eq", "Group.renderItems": "Group_renderItems_eq", "Group.render": "Group_render_eq",
                 "File.Render": "File_Render_eq", "Statement.RenderWithFile": "Statement_RenderWithFile_eq",
                 "Group.RenderWithFile": "Group_RenderWithFile_eq", "File.Save": "File_Save_eq",
-                "Dict.render": "Dict_render_eq"}
+                "Dict.render": "Dict_render_eq", "token.render": "token_render_eq"}
 syntactic_tie = None
 escalate = 1
 rct = 0
@@ -99,6 +99,7 @@ if prop in TIE_PROPS:
                      "comment_render_eq": "JenVerif/Tie/TextSrc.lean", "tag_isNull_eq": "JenVerif/Tie/TextSrc.lean", "tag_render_eq": "JenVerif/Tie/TextSrc.lean",
                      "renderImports_src_eq_model": "JenVerif/Tie/Registry.lean"})
     THM_FILE["Dict_render_eq"] = "JenVerif/Tie/DictSrc.lean"
+    THM_FILE["token_render_eq"] = "JenVerif/Tie/TokenSrc.lean"
     THM_FILE.update({t: "JenVerif/Tie/EntrySrc.lean" for t in ("File_Render_eq", "Statement_RenderWithFile_eq", "Group_RenderWithFile_eq", "File_Save_eq")})
     THM_FILE.update({t: "JenVerif/Tie/RenderSrc.lean" for t in ("Statement_render_eq", "Group_renderItems_eq", "Group_render_eq")})
     THM_FILE.update({t: "JenVerif/Tie/NullSrc.lean" for t in ("token_isNull_eq", "comment_isNull_eq", "Group_isNullItems_eq", "Group_isNull_eq", "Statement_isNull_eq", "Dict_isNull_eq")})
@@ -108,6 +109,7 @@ if prop in TIE_PROPS:
             "JenVerif/Tie/Registry.lean": ["JenVerif/Tie/RegisterSrc.lean", "JenVerif/Tie/GuessAliasSrc.lean", "JenVerif/Tie/RegistrySrc.lean",
                                            "JenVerif/Tie/TextSrc.lean", "JenVerif/Tie/ImportsSrc.lean", "JenVerif/Tie/NullSrc.lean", "JenVerif/Tie/RenderSrc.lean"]}
     DEPS["JenVerif/Tie/DictSrc.lean"] = ["JenVerif/Tie/RenderSrc.lean"] + DEPS["JenVerif/Tie/RenderSrc.lean"]
+    DEPS["JenVerif/Tie/TokenSrc.lean"] = ["JenVerif/Tie/RenderSrc.lean"] + DEPS["JenVerif/Tie/RenderSrc.lean"]
     DEPS["JenVerif/Tie/EntrySrc.lean"] = ["JenVerif/Tie/Registry.lean"] + DEPS["JenVerif/Tie/Registry.lean"]
     gen_broken = rct and ("Gen/SrcRegistry.lean" in tie_out and "error" in tie_out and not bad_files)
     for fn_, thm in TIE_THEOREMS.items():
